@@ -207,6 +207,7 @@ func grown(b []byte) []byte { return append(b, '!', '?') }
 // failedReadsFirst: when set (per session), every recorded read of the codec drivers is preceded by complete iterations over a few
 // malformed texts of the same format: a failed parse must leave nothing behind that a later reader could pick up.
 var failedReadsFirst bool
+var malformedNext int
 
 var malformedTexts = map[string][]string{
 	"fasta":  {"junk before the first record\n>x\nAC\n", ">a\nAC\n>"},
